@@ -1,10 +1,6 @@
 import CobaVerif.Model.C10
 namespace Coba.C10
 
-/-- pairwise distinct under Python `==`, every element equal to itself -/
-def Distinct (as : List Val) : Prop :=
-  ∀ (i j : Nat) (a b : Val), as[i]? = some a → as[j]? = some b → pyEq a b = (i == j)
-
 theorem distinctB_iff (as : List Val) : distinctB as = true ↔ Distinct as := by
   unfold distinctB Distinct
   constructor
@@ -417,49 +413,49 @@ def obsWith (r : Option Rew) (acts : List Val) : Option (List (Except Err Rat)) 
 theorem rekeyOpt_aligned {p : Policy} {r r' : Option Rew} {o n : List Val}
     (hh : targetHypB p r o n = true) (hl : o.length = n.length)
     (h : rekeyOpt p r (some o) (some n) = .ok r') : optObsEq (obsWith r o) (obsWith r' n) = true := by
-  cases r with
-  | none =>
+  have nonkeep : ∀ (r0 : Rew), r = some r0 → (∀ r2, rekey p r0 o n = .ok r2 → r' = some r2 → optObsEq (obsWith r o) (obsWith r' n) = true) := by
+    intro r0 hr0 r2 hr hr'
+    subst hr0; subst hr'
+    simpa [obsWith, optObsEq] using rekey_aligned hh hl hr
+  cases p with
+  | keep =>
     simp [rekeyOpt] at h
     subst h
-    simp [obsWith, optObsEq]
-  | some r =>
-    cases p with
-    | keep =>
-      simp [rekeyOpt] at h
-      subst h
-      simpa [obsWith, optObsEq, targetHypB] using hh
-    | generic =>
+    cases r with
+    | none => simp [obsWith, optObsEq]
+    | some r => simpa [obsWith, optObsEq, targetHypB] using hh
+  | generic =>
+    cases r with
+    | none => simp [rekeyOpt] at h
+    | some r0 =>
       simp only [rekeyOpt] at h
-      cases hr : rekey .generic r o n with
+      cases hr : rekey .generic r0 o n with
       | error e => simp [hr] at h
-      | ok r2 =>
-        simp [hr] at h
-        subst h
-        simpa [obsWith, optObsEq] using rekey_aligned hh hl hr
-    | reprStyle fd =>
+      | ok r2 => simp [hr] at h; exact nonkeep r0 rfl r2 hr h.symm
+  | reprStyle fd =>
+    cases r with
+    | none => simp [rekeyOpt] at h
+    | some r0 =>
       simp only [rekeyOpt] at h
-      cases hr : rekey (.reprStyle fd) r o n with
+      cases hr : rekey (.reprStyle fd) r0 o n with
       | error e => simp [hr] at h
-      | ok r2 =>
-        simp [hr] at h
-        subst h
-        simpa [obsWith, optObsEq] using rekey_aligned hh hl hr
-    | wrapSeq =>
+      | ok r2 => simp [hr] at h; exact nonkeep r0 rfl r2 hr h.symm
+  | wrapSeq =>
+    cases r with
+    | none => simp [rekeyOpt] at h
+    | some r0 =>
       simp only [rekeyOpt] at h
-      cases hr : rekey .wrapSeq r o n with
+      cases hr : rekey .wrapSeq r0 o n with
       | error e => simp [hr] at h
-      | ok r2 =>
-        simp [hr] at h
-        subst h
-        simpa [obsWith, optObsEq] using rekey_aligned hh hl hr
-    | toList =>
+      | ok r2 => simp [hr] at h; exact nonkeep r0 rfl r2 hr h.symm
+  | toList =>
+    cases r with
+    | none => simp [rekeyOpt] at h
+    | some r0 =>
       simp only [rekeyOpt] at h
-      cases hr : rekey .toList r o n with
+      cases hr : rekey .toList r0 o n with
       | error e => simp [hr] at h
-      | ok r2 =>
-        simp [hr] at h
-        subst h
-        simpa [obsWith, optObsEq] using rekey_aligned hh hl hr
+      | ok r2 => simp [hr] at h; exact nonkeep r0 rfl r2 hr h.symm
 
 theorem obsRewards_some (I : Inter) (as : List Val) (h : I.actions = some as) : obsRewards I = obsWith I.rewards as := by
   unfold obsRewards obsWith
@@ -730,5 +726,382 @@ theorem runChain_aligned (cfg : Cfg) : ∀ (chain : List Step) {S S' : State},
       simp only [hst] at h hh
       have h1 := runStep_aligned cfg st hh.1 hst hs
       exact alignedStreamB_trans h1 (ih hh.2 h (alignedStreamB_refl_right h1))
+
+
+/-! ### batching -/
+theorem chunkSizes_sum (k : Nat) (hk : 0 < k) : ∀ (fuel len : Nat), len ≤ fuel → (chunkSizes k fuel len).sum = len := by
+  intro fuel
+  induction fuel with
+  | zero => intro len h; have : len = 0 := by omega
+            subst this; simp [chunkSizes]
+  | succ f ih =>
+    intro len h
+    cases len with
+    | zero => simp [chunkSizes]
+    | succ l =>
+      simp only [chunkSizes]
+      split
+      · simp
+      · rename_i hgt
+        simp only [List.sum_cons]
+        rw [ih (l + 1 - k) (by omega)]
+        omega
+
+theorem chunkSizes_bound (k : Nat) (hk : 0 < k) : ∀ (fuel len : Nat), ∀ x ∈ chunkSizes k fuel len, 0 < x ∧ x ≤ k := by
+  intro fuel
+  induction fuel with
+  | zero => intro len x hx; simp [chunkSizes] at hx
+  | succ f ih =>
+    intro len x hx
+    cases len with
+    | zero => simp [chunkSizes] at hx
+    | succ l =>
+      simp only [chunkSizes] at hx
+      split at hx
+      · simp at hx; omega
+      · simp at hx
+        rcases hx with rfl | hx
+        · omega
+        · exact ih _ x hx
+
+/-! ### one-hot and string encodings of categoricals are injective -/
+
+theorem levelIndex_lt (s : String) : ∀ (ls : List String) (off i : Nat), levelIndex s ls off = some i → off ≤ i ∧ i < off + ls.length := by
+  intro ls
+  induction ls with
+  | nil => intro off i h; simp [levelIndex] at h
+  | cons l ls ih =>
+    intro off i h
+    simp only [levelIndex] at h
+    split at h
+    · cases h; simp
+    · have := ih (off + 1) i h
+      simp; omega
+
+theorem levelIndex_get (s : String) : ∀ (ls : List String) (off i : Nat), levelIndex s ls off = some i → ls[i - off]? = some s := by
+  intro ls
+  induction ls with
+  | nil => intro off i h; simp [levelIndex] at h
+  | cons l ls ih =>
+    intro off i h
+    simp only [levelIndex] at h
+    split at h
+    · rename_i heq
+      cases h
+      simp at heq
+      simp [heq]
+    · have hb := levelIndex_lt s ls (off + 1) i h
+      have := ih (off + 1) i h
+      have e : i - off = (i - (off + 1)) + 1 := by omega
+      rw [e]
+      simpa using this
+
+/-- two levels of one level list with the same position are the same level -/
+theorem levelIndex_injective {s t : String} {ls : List String} {i : Nat}
+    (hs : levelIndex s ls 0 = some i) (ht : levelIndex t ls 0 = some i) : s = t := by
+  have a := levelIndex_get s ls 0 i hs
+  have b := levelIndex_get t ls 0 i ht
+  rw [a] at b
+  exact Option.some.inj b
+
+theorem pyEqL_map (f g : Nat → Val) : ∀ xs : List Nat,
+    pyEqL (xs.map f) (xs.map g) = xs.all (fun k => pyEq (f k) (g k))
+  | [] => by simp [pyEqL]
+  | x :: xs => by simp [pyEqL, pyEqL_map f g xs]
+
+theorem pyEqL_onehotVec (n : Nat) (i j : Nat) (hi : i < n) :
+    pyEqL (onehotVec i n) (onehotVec j n) = (i == j) := by
+  unfold onehotVec
+  rw [pyEqL_map]
+  by_cases h : i = j
+  · subst h
+    simp [pyEq]
+  · have : (i == j) = false := by simp [h]
+    rw [this, List.all_eq_false]
+    refine ⟨i, List.mem_range.mpr hi, ?_⟩
+    have hji : (i == j) = false := by simp [h]
+    simp [pyEq, hji]
+
+/-- every representation `Repr` can give a scalar categorical action compares exactly like the
+categorical itself: one-hot tuples and strings are injective encodings of the levels -/
+theorem encodeValue_onehot {m : Mode} (hm : m ≠ .string) {s : String} {ls : List String} {a : Val}
+    (ha : encodeValue m (.cat s ls) = .ok a) :
+    ∃ i, levelIndex s ls 0 = some i ∧ a = .tuple (onehotVec i ls.length) := by
+  cases m with
+  | string => exact absurd rfl hm
+  | onehot =>
+    simp only [encodeValue, onehotOf] at ha
+    cases hi : levelIndex s ls 0 with
+    | none => simp [hi] at ha
+    | some i => simp [hi] at ha; exact ⟨i, rfl, ha.symm⟩
+  | onehotTuple =>
+    simp only [encodeValue, onehotOf] at ha
+    cases hi : levelIndex s ls 0 with
+    | none => simp [hi] at ha
+    | some i => simp [hi] at ha; exact ⟨i, rfl, ha.symm⟩
+
+theorem encodeValue_pyEq {m : Mode} {s t : String} {ls : List String} {a b : Val}
+    (ha : encodeValue m (.cat s ls) = .ok a) (hb : encodeValue m (.cat t ls) = .ok b) :
+    pyEq a b = pyEq (.cat s ls) (.cat t ls) := by
+  by_cases hm : m = .string
+  · subst hm
+    simp [encodeValue, strOf] at ha hb
+    subst ha; subst hb
+    simp [pyEq]
+  · obtain ⟨i, hi, rfl⟩ := encodeValue_onehot hm ha
+    obtain ⟨j, hj, rfl⟩ := encodeValue_onehot hm hb
+    have hlt := (levelIndex_lt s ls 0 i hi).2
+    simp only [pyEq, pyEqL_onehotVec ls.length i j (by simpa using hlt)]
+    by_cases hst : s = t
+    · subst hst
+      rw [hi] at hj
+      cases hj
+      simp
+    · have hij : i ≠ j := by
+        intro e
+        subst e
+        exact hst (levelIndex_injective hi hj)
+      rw [beq_eq_false_iff_ne.mpr hij, beq_eq_false_iff_ne.mpr hst]
+
+theorem getElem?_of_map_eq {α β} {f : α → Except Err β} : ∀ {xs : List α} {ys : List β}, xs.map f = ys.map Except.ok →
+    ∀ (i : Nat) (y : β), ys[i]? = some y → ∃ x, xs[i]? = some x ∧ f x = .ok y := by
+  intro xs
+  induction xs with
+  | nil => intro ys h i y hy; cases ys <;> simp_all
+  | cons x xs ih =>
+    intro ys h i y hy
+    cases ys with
+    | nil => simp at h
+    | cons y0 ys =>
+      simp at h
+      cases i with
+      | zero => simp at hy; subst hy; exact ⟨x, by simp, h.1⟩
+      | succ i =>
+        simp at hy
+        obtain ⟨x', hx', hf⟩ := ih h.2 i y hy
+        exact ⟨x', by simpa using hx', hf⟩
+
+/-- scalar categorical actions over one level list stay pairwise distinct under every mode of Repr -/
+theorem encodeValues_distinct {m : Mode} {ls : List String} {rows enc : List Val}
+    (hcat : ∀ r ∈ rows, ∃ s, r = Val.cat s ls) (h : mapM' (encodeValue m) rows = .ok enc)
+    (hd : Distinct rows) : Distinct enc := by
+  have hmap := mapM'_ok _ _ _ h
+  intro i j a b hi hj
+  obtain ⟨x, hx, hfx⟩ := getElem?_of_map_eq hmap i a hi
+  obtain ⟨y, hy, hfy⟩ := getElem?_of_map_eq hmap j b hj
+  obtain ⟨s, rfl⟩ := hcat x (List.mem_of_getElem? hx)
+  obtain ⟨t, rfl⟩ := hcat y (List.mem_of_getElem? hy)
+  rw [encodeValue_pyEq hfx hfy]
+  exact hd i j _ _ hx hy
+
+
+
+/-! ### Sparsify and Finalize, end to end -/
+
+mutual
+theorem Val.same_refl : ∀ (a : Val), Val.same a a = true
+  | .none => by simp [Val.same]
+  | .num a => by simp [Val.same]
+  | .str a => by simp [Val.same]
+  | .cat a la => by simp [Val.same]
+  | .list xs => by simp [Val.same, Val.sameL_refl xs]
+  | .tuple xs => by simp [Val.same, Val.sameL_refl xs]
+  | .dict kvs => by simp [Val.same, Val.sameD_refl kvs]
+  | .lazy kvs n => by simp [Val.same, Val.sameZ_refl kvs]
+theorem Val.sameL_refl : ∀ (xs : List Val), Val.sameL xs xs = true
+  | [] => by simp [Val.sameL]
+  | x :: xs => by simp [Val.sameL, Val.same_refl x, Val.sameL_refl xs]
+theorem Val.sameD_refl : ∀ (xs : List (String × Val)), Val.sameD xs xs = true
+  | [] => by simp [Val.sameD]
+  | (k, x) :: xs => by simp [Val.sameD, Val.same_refl x, Val.sameD_refl xs]
+theorem Val.sameZ_refl : ∀ (xs : List (Nat × Val)), Val.sameZ xs xs = true
+  | [] => by simp [Val.sameZ]
+  | (k, x) :: xs => by simp [Val.sameZ, Val.same_refl x, Val.sameZ_refl xs]
+end
+
+theorem makeSparse_id (h : String) (v : Val) (hv : sparseConverts v = false) : makeSparse h v = v := by
+  cases v <;> simp_all [sparseConverts, makeSparse]
+
+theorem map_makeSparse_id (h : String) : ∀ (as : List Val), as.any sparseConverts = false → as.map (makeSparse h) = as
+  | [], _ => rfl
+  | a :: as, hv => by
+    simp only [List.any_cons, Bool.or_eq_false_iff] at hv
+    simp [makeSparse_id h a hv.1, map_makeSparse_id h as hv.2]
+
+theorem plansHypB_map (f : Inter → Plan) : ∀ (l : List Inter), (∀ I ∈ l, planHypB I (f I) = true) → plansHypB l (l.map f) = true
+  | [], _ => rfl
+  | I :: l, h => by
+    simp only [List.map_cons, plansHypB, Bool.and_eq_true]
+    exact ⟨h I (by simp), plansHypB_map f l (fun J hJ => h J (by simp [hJ]))⟩
+
+theorem alignedStreamB_self_mem : ∀ {s : List Inter}, alignedStreamB s s = true → ∀ I ∈ s, alignedB I I = true
+  | [], _, I, h => by cases h
+  | J :: s, hs, I, h => by
+    simp only [alignedStreamB, Bool.and_eq_true] at hs
+    cases h with
+    | head => exact hs.1
+    | tail _ h' => exact alignedStreamB_self_mem hs.2 I h'
+
+/-- **Sparsify** (with the proposed repair) keeps every interaction aligned, provided its encoding is
+injective on each action set, functional rewards are functional throughout the stream (the
+first interaction decides, as everywhere in coba) and the logged action is literally one of the actions. -/
+theorem sparsify_aligned' (c a : Bool) (s s' : List Inter)
+    (hself : alignedStreamB s s = true)
+    (hhomR : ∀ I ∈ s, ∀ r, I.rewards = some r → r.isCallable = true → firstCallable (·.rewards) s = true)
+    (hhomF : ∀ I ∈ s, ∀ r, I.feedbacks = some r → r.isCallable = true → firstCallable (·.feedbacks) s = true)
+    (hinj : ∀ I ∈ s, ∀ as, I.actions = some as → Distinct (sparsifyActs a as))
+    (hlog : ∀ I ∈ s, ∀ a0 as k, I.action = some a0 → I.actions = some as → indexOf as a0 = some k → as[k]? = some a0)
+    (hrun : runPrim Cfg.fixed (.sparsify c a) s = .ok s') : alignedStreamB s s' = true := by
+  simp only [runPrim, plansOf, sparsifyPlans] at hrun
+  refine applyPlans_aligned (plansHypB_map _ s ?_) hrun
+  intro I hI
+  have hII := alignedStreamB_self_mem hself I hI
+  simp only [alignedB, Bool.and_eq_true] at hII
+  obtain ⟨⟨⟨⟨hIr, hIf⟩, _⟩, _⟩, _⟩ := hII
+  -- one target
+  have target : ∀ (get : Inter → Option Rew) (as : List Val), I.actions = some as →
+      optObsEq (obsWith (get I) as) (obsWith (get I) as) = true →
+      (∀ r, get I = some r → r.isCallable = true → firstCallable get s = true) →
+      targetHypB (if (Cfg.fixed.fixRekey && a && as.any sparseConverts) && firstCallable get s then Policy.generic else Policy.keep)
+        (get I) as (sparsifyActs a as) = true := by
+    intro get as has hobs hhom
+    cases hr : get I with
+    | none => simp [targetHypB]
+    | some r =>
+      have hd := (distinctB_iff _).mpr (hinj I hI as has)
+      by_cases hch : (a && as.any sparseConverts) = true
+      · by_cases hfc : firstCallable get s = true
+        · simp [Cfg.fixed, hch, hfc, targetHypB, hd]
+        · have hnc : r.isCallable = false := by
+            cases hc : r.isCallable with
+            | false => rfl
+            | true => exact absurd (hhom r hr hc) hfc
+          cases r with
+          | seq b rs =>
+            simp only [Bool.not_eq_true] at hfc
+            simp [Cfg.fixed, hfc, targetHypB, obsOf_seq, obsEq_ok_self]
+          | _ => simp [Rew.isCallable] at hnc
+      · have hsame : sparsifyActs a as = as := by
+          unfold sparsifyActs
+          cases a with
+          | false => rfl
+          | true =>
+            simp only [Bool.true_and, Bool.not_eq_true] at hch
+            simp [map_makeSparse_id "action" as hch]
+        simp only [Bool.not_eq_true] at hch
+        rw [hr] at hobs
+        simp only [Cfg.fixed, Bool.true_and, hch, Bool.false_and, Bool.false_eq_true, if_false, targetHypB, hsame]
+        simpa [obsWith, optObsEq] using hobs
+  unfold planHypB
+  cases has : I.actions with
+  | none => simp
+  | some as =>
+    have hacts : (if a = true then Option.map (fun x => List.map (makeSparse "action") x) (some as) else some as) = some (sparsifyActs a as) := by
+      unfold sparsifyActs; cases a <;> simp
+    simp only [hacts, Bool.and_eq_true, beq_iff_eq]
+    rw [obsRewards_some I as has] at hIr
+    rw [obsFeedbacks_some I as has] at hIf
+    refine ⟨⟨⟨?_, ?_⟩, ?_⟩, ?_⟩
+    · unfold sparsifyActs; cases a <;> simp
+    · have := target (·.rewards) as has hIr (hhomR I hI)
+      simpa [Cfg.fixed] using this
+    · have := target (·.feedbacks) as has hIf (hhomF I hI)
+      simpa [Cfg.fixed] using this
+    · unfold loggedHypB
+      cases ha0 : I.action with
+      | none => cases a <;> simp
+      | some a0 =>
+        have hact : (if a = true then Option.map (makeSparse "action") (some a0) else some a0) = some (if a then makeSparse "action" a0 else a0) := by
+          cases a <;> simp
+        simp only [hact]
+        cases hk : indexOf as a0 with
+        | none => simp
+        | some k =>
+          have hmem := hlog I hI a0 as k ha0 has hk
+          have hd := (distinctB_iff _).mpr (hinj I hI as has)
+          simp only [hd, Bool.true_and]
+          unfold sparsifyActs
+          cases a with
+          | false => simp [hmem, Val.same_refl]
+          | true => simp [hmem, Val.same_refl]
+
+
+/-- **Finalize**'s last step, `DiscreteReward(actions, the_list)`, keeps list rewards/feedbacks with their actions -/
+theorem finalize_wrap_aligned' (s s' : List Inter)
+    (hself : alignedStreamB s s = true)
+    (hacts : ∀ I ∈ s, ∃ as, I.actions = some as)
+    (hinj : ∀ I ∈ s, ∀ as, I.actions = some as → Distinct as)
+    (hlog : ∀ I ∈ s, ∀ a0 as k, I.action = some a0 → I.actions = some as → indexOf as a0 = some k → as[k]? = some a0)
+    (hrun : runPrim Cfg.fixed .wrapSeqs s = .ok s') : alignedStreamB s s' = true := by
+  simp only [runPrim, plansOf] at hrun
+  cases s with
+  | nil => simp [wrapPlans, applyPlans] at hrun; subst hrun; rfl
+  | cons first rest =>
+    simp only [wrapPlans] at hrun
+    refine applyPlans_aligned (plansHypB_map _ (first :: rest) ?_) hrun
+    intro I hI
+    have hII := alignedStreamB_self_mem hself I hI
+    simp only [alignedB, Bool.and_eq_true] at hII
+    obtain ⟨⟨⟨⟨hIr, hIf⟩, _⟩, _⟩, _⟩ := hII
+    have target : ∀ (r : Option Rew) (b : Bool) (as : List Val), Distinct as →
+        optObsEq (obsWith r as) (obsWith r as) = true →
+        targetHypB (if b then Policy.wrapSeq else Policy.keep) r as as = true := by
+      intro r b as hd hobs
+      cases r with
+      | none => simp [targetHypB]
+      | some r =>
+        cases b with
+        | true => simp [targetHypB, (distinctB_iff _).mpr hd]
+        | false => simpa [targetHypB, obsWith, optObsEq] using hobs
+    unfold planHypB
+    cases has : I.actions with
+    | none => obtain ⟨as, h⟩ := hacts I hI; rw [has] at h; cases h
+    | some as =>
+      have hd := hinj I hI as has
+      rw [obsRewards_some I as has] at hIr
+      rw [obsFeedbacks_some I as has] at hIf
+      simp only [Bool.and_eq_true, beq_iff_eq]
+      refine ⟨⟨⟨trivial, target _ _ as hd hIr⟩, target _ _ as hd hIf⟩, ?_⟩
+      unfold loggedHypB
+      cases ha0 : I.action with
+      | none => simp
+      | some a0 =>
+        cases hk : indexOf as a0 with
+        | none => simp [hk]
+        | some k =>
+          simp [hk, (distinctB_iff _).mpr hd, hlog I hI a0 as k ha0 has hk, Val.same_refl]
+
+
+theorem batch_unbatch_stream' (cfg : Cfg) (n : Option Nat) (S S1 S2 : State)
+    (h1 : runStep cfg (.batch n) S = .ok S1) (h2 : runStep cfg .unbatch S1 = .ok S2) :
+    S2.stream = S.stream ∧ S2.sizes = none := by
+  simp only [runStep] at h2
+  cases h2
+  simp only [runStep] at h1
+  cases n with
+  | none => cases h1; exact ⟨rfl, rfl⟩
+  | some k =>
+    cases k with
+    | zero => cases h1; exact ⟨rfl, rfl⟩
+    | succ k =>
+      simp only at h1
+      cases hsz : S.sizes with
+      | some _ => simp [hsz] at h1
+      | none =>
+        simp only [hsz] at h1
+        split at h1 <;> (cases h1; exact ⟨rfl, rfl⟩)
+
+
+/-- one primitive filter -/
+theorem runPrim_aligned (cfg : Cfg) (st : Step) {s s' : List Inter}
+    (hh : primsHypB cfg [st] s = true) (h : runPrim cfg st s = .ok s') (hs : alignedStreamB s s = true) :
+    alignedStreamB s s' = true := by
+  refine runPrims_aligned cfg [st] hh ?_ hs
+  simp [runPrims, h]
+
+/-- Finalize = Harden, Repr('onehot','onehot'), wrap list rewards -/
+theorem finalize_aligned' (cfg : Cfg) {s s' : List Inter}
+    (hh : primsHypB cfg (expandStep .finalize) s = true) (h : runPrims cfg (expandStep .finalize) s = .ok s')
+    (hs : alignedStreamB s s = true) : alignedStreamB s s' = true := runPrims_aligned cfg _ hh h hs
 
 end Coba.C10
